@@ -24,6 +24,11 @@
 // cache off / with auto-reload) by a second version with another body / other defaults / other arity and
 // replaced back; and a shared partial calls the macro supplied by its includer under two includers that
 // supply different macros of that name, rendered alternately in both orders.
+//
+// Collision dimension and wide signatures (collide.go): the importing template binds a name that the
+// reached library macro calls (a sibling) to a macro of its own or to an alias of another macro — the
+// library macro must still render what it renders in its defining template; signatures of 8, 9, 10 and
+// 12 parameters (thorough 4 … 12) with argument lists around the number of parameters.
 package main
 
 import (
@@ -172,9 +177,13 @@ const (
 	sLoopImport  // the import/from statement stands inside the loop body: several imports in one render
 	sLoopInclude // a loop body includes the template that reaches and calls the macro
 	nSites
+	// sites that only the families written for them enumerate (ints(nSites) does not contain them)
+	sWrap = nSites // the import stands at top level of the calling template, the call inside a macro v of that template
 )
 
-var siteName = [...]string{"top", "loop", "if", "block", "childblock", "include", "inmacro", "libw", "libwself", "loopimport", "loopinclude"}
+var siteName = [...]string{"top", "loop", "if", "block", "childblock", "include", "inmacro", "libw", "libwself", "loopimport", "loopinclude", "wrap"}
+
+var allSitesAndWrap = append(ints(nSites), sWrap)
 
 // histories
 const (
@@ -223,19 +232,21 @@ const twDef = "{% macro tw(p1) %}<{{ p1 }}{{ p1 }}>{% endmacro %}"
 var heldUses = []int{uSet2, uSetLoop, uOuter, uOuterLocal, uTwo}
 
 type kase struct {
-	Name    string // macro name: f, or a name that is also a built-in function
-	N       int    // parameters
-	DefMask int
-	DefSt   int
-	Spacing int
-	Argc    int
-	ArgSt   int
-	Body    int
-	Site    int
-	Pad     int  // 0 none, 1 defining template above 4096 bytes, 2 calling template above 4096 bytes
-	Hist    int  // hEach or hSeq
-	Use     int  // uPrint … uTwo
-	Mark    bool // second version of the macro (families replace, partial): the body's text carries a mark; not part of the key
+	Name     string // macro name: f, or a name that is also a built-in function
+	N        int    // parameters
+	DefMask  int
+	DefSt    int
+	Spacing  int
+	Argc     int
+	ArgSt    int
+	Body     int
+	Site     int
+	Pad      int  // 0 none, 1 defining template above 4096 bytes, 2 calling template above 4096 bytes
+	Hist     int  // hEach or hSeq
+	Use      int  // uPrint … uTwo
+	Mark     bool // second version of the macro (families replace, partial): the body's text carries a mark; not part of the key
+	Col      int  // collide.go: how the importing template binds a name that a macro of the library also carries (cNone: it does not)
+	ColNames int  // … which names (bit set nmG, nmF)
 }
 
 func (c *kase) key() string {
@@ -246,6 +257,9 @@ func (c *kase) key() string {
 	}
 	if c.Hist == hSeq {
 		k += "|seq"
+	}
+	if c.Col != cNone {
+		k = "col:" + colName[c.Col] + ":" + colNamesName[c.ColNames] + "|" + k
 	}
 	return k
 }
@@ -410,6 +424,13 @@ func (c *kase) program(reach int, sfx string) (tpls map[string]string, mainName 
 		if usesOuter(c.ArgSt) {
 			return nil, "", false
 		}
+	case sWrap:
+		if usesOuter(c.ArgSt) {
+			return nil, "", false
+		}
+		if local {
+			return nil, "", false // the same text as site inmacro
+		}
 	case sChildBlock:
 		if local {
 			return nil, "", false // a child template's macro definitions stand outside its blocks
@@ -450,6 +471,24 @@ func (c *kase) program(reach int, sfx string) (tpls map[string]string, mainName 
 		mainName, incName = dir+mainName, dir+incName
 	}
 
+	// a name of the importing side that collides with a macro of the library (collide.go)
+	col, colOK := c.collision(reach, libName)
+	if !colOK {
+		return nil, "", false
+	}
+	if c.colAlias() && !c.colXlib() {
+		libExtra += altDefs
+	}
+	list := func(own string) string { // the import list of the from-statement
+		switch {
+		case col.inList == "":
+			return own
+		case col.inFirst:
+			return col.inList + ", " + own
+		}
+		return own + ", " + col.inList
+	}
+
 	// how the calling template gets at the macro, and the call expression
 	var reachStmt, fn string
 	switch reach {
@@ -461,15 +500,16 @@ func (c *kase) program(reach int, sfx string) (tpls map[string]string, mainName 
 		reachStmt = "{% import '" + libName + "' as m %}"
 		fn = "m." + target
 	case rFrom:
-		reachStmt = "{% from '" + libName + "' import " + target + " %}"
+		reachStmt = "{% from '" + libName + "' import " + list(target) + " %}"
 		fn = target
 	case rAlias:
-		reachStmt = "{% from \"" + libName + "\" import " + target + " as h %}"
+		reachStmt = "{% from \"" + libName + "\" import " + list(target+" as h") + " %}"
 		fn = "h"
 	case rMulti:
-		reachStmt = "{% from '" + libName + "' import g as g2, " + target + " as h %}"
+		reachStmt = "{% from '" + libName + "' import " + list("g as g2, "+target+" as h") + " %}"
 		fn = "h"
 	}
+	reachStmt = col.stmtPre + reachStmt + col.stmtPost
 	call, call2 := fn+calleeArgs, fn+calleeArgs2
 	if builtinName(c.Name) && target == c.Name && (reach == rDirect || reach == rFrom) {
 		return nil, "", false // a bare call of that name could mean the built-in function
@@ -481,11 +521,14 @@ func (c *kase) program(reach int, sfx string) (tpls map[string]string, mainName 
 	if local {
 		reachStmt = defs
 	}
-	use := c.useSrc(reach, call, call2)
+	use := c.useSrc(reach, call, call2) + col.probe
 
 	tpls = map[string]string{}
 	if c.Use == uOuter {
 		tpls["olib"] = twDef
+	}
+	if c.colXlib() {
+		tpls["xlib"] = altDefs
 	}
 	main := ""
 	switch c.Site {
@@ -494,7 +537,7 @@ func (c *kase) program(reach int, sfx string) (tpls map[string]string, mainName 
 	case sLoop:
 		main = reachStmt + "{% for i in xs %}" + use + ";{% endfor %}"
 	case sLoopImport:
-		main = "{% for i in xs %}" + reachStmt + use + ";{% endfor %}"
+		main = col.outerPre + "{% for i in xs %}" + reachStmt + use + ";{% endfor %}"
 	case sIf:
 		main = reachStmt + "{% if t %}" + use + "{% else %}no{% endif %}"
 	case sBlock:
@@ -512,8 +555,10 @@ func (c *kase) program(reach int, sfx string) (tpls map[string]string, mainName 
 		if local {
 			main = defs + "{% macro v() %}(" + use + "){% endmacro %}{{ v() }}"
 		} else {
-			main = "{% macro v() %}" + reachStmt + "(" + use + "){% endmacro %}{{ v() }}"
+			main = col.outerPre + "{% macro v() %}" + reachStmt + "(" + use + "){% endmacro %}" + col.outerPost + "{{ v() }}"
 		}
+	case sWrap:
+		main = reachStmt + "{% macro v() %}(" + use + "){% endmacro %}{{ v() }}"
 	}
 	if c.Site != sInclude && c.Site != sLoopInclude {
 		main = topDefs + main
@@ -633,12 +678,14 @@ func (c *kase) expected() string {
 		out2 := c.callOutputWith(c.Site != sLibDirect && c.Site != sLibSelf)
 		out = out + out2 + out
 	}
+	// where the importing template calls a colliding name itself, the name designates its own macro
+	out += c.probeOut()
 	switch c.Site {
 	case sLoop, sLoopImport, sLoopInclude:
 		out = out + ";" + out + ";"
 	case sBlock, sChildBlock:
 		out = "<" + out + ">"
-	case sInMacro:
+	case sInMacro, sWrap:
 		out = "(" + out + ")"
 	}
 	// afterwards the caller's variables are what they were: p0 is still the outer value, zz is
@@ -777,8 +824,11 @@ func check(c kase) *vlib.Outcome {
 	if c.Hist != hEach {
 		class += "|" + histName[c.Hist]
 	}
+	if c.Col != cNone {
+		class += "|" + colName[c.Col] + ":" + colNamesName[c.ColNames]
+	}
 	o := &vlib.Outcome{
-		Nontrivial: c.N+c.Argc > 0,
+		Nontrivial: c.N+c.Argc > 0 && (c.Col == cNone || c.colExercised()),
 		Class:      class,
 		Counters:   map[string]int64{},
 	}
@@ -866,10 +916,14 @@ type family struct {
 	sites, pads     []int
 	minArgc         int
 	hist            int
-	uses            []int // nil: the call is printed
-	kind            int   // kPlain, kReplace, kPartial (replace.go)
-	changes         []int // kReplace, kPartial: how the macro's second version differs from the first
-	mechs           []int // kReplace: how the library is replaced
+	uses            []int           // nil: the call is printed
+	kind            int             // kPlain, kReplace, kPartial (replace.go)
+	changes         []int           // kReplace, kPartial: how the macro's second version differs from the first
+	mechs           []int           // kReplace: how the library is replaced
+	ns              []int           // the numbers of parameters, when not 0 … maxN (wide signatures)
+	masks           func(int) []int // the subsets of parameters with defaults, when not every subset
+	argcs           func(int) []int // the numbers of arguments, when not minArgc … n+1
+	cols            []int           // collide.go: kinds of name collision between the importing side and the library; nil: none
 }
 
 func ints(n int) []int {
@@ -886,6 +940,15 @@ func families(thorough bool) []family {
 		return []family{
 			{name: "full", names: f, maxN: 3, defSt: ints(nDefStyles), spacings: ints(nSpacings), argSt: ints(nArgStyles), bodies: ints(nBodies), sites: ints(nSites), pads: []int{0, 1, 2}},
 			{name: "builtin-name", names: []string{"max"}, maxN: 3, defSt: []int{0, 2}, spacings: []int{0, 3}, argSt: []int{asInt}, bodies: ints(nBodies), sites: ints(nSites), pads: []int{0, 1}, minArgc: 1},
+			// wide signatures (collide.go): 4 … 12 parameters
+			{name: "wide", names: f, ns: []int{4, 5, 6, 7, 8, 9, 10, 11, 12}, masks: wideMasksThorough, argcs: wideArgcsThorough, defSt: []int{0}, spacings: []int{0}, argSt: []int{asStr, asNull, asPar}, bodies: []int{bPrint, bSelfSibling}, sites: allSitesAndWrap, pads: []int{0}},
+			{name: "wide-spelling", names: f, ns: []int{8, 9, 10, 12}, masks: widePatterns, argcs: wideArgcs, defSt: []int{0, 1, 3}, spacings: ints(nSpacings), argSt: []int{asStr, asExpr}, bodies: []int{bPrint, bControl}, sites: []int{sTop, sInclude, sLibSelf, sWrap}, pads: []int{0, 1, 2}},
+			{name: "wide-held", names: f, ns: []int{8, 9, 10, 12}, masks: widePatterns, argcs: wideArgcs, defSt: []int{0}, spacings: []int{0}, argSt: []int{asStr, asPar}, bodies: []int{bPrint}, sites: allSitesAndWrap, pads: []int{0, 2}, minArgc: 1, uses: heldUses},
+			{name: "wide-seq", names: f, ns: []int{8, 9, 10, 12}, masks: widePatterns, argcs: wideArgcs, defSt: []int{0}, spacings: []int{0}, argSt: []int{asStr, asPar}, bodies: []int{bPrint}, sites: allSitesAndWrap, pads: []int{0}, hist: hSeq},
+			// a name of the importing side collides with a macro of the library (collide.go); site wrap
+			{name: "collide", names: f, maxN: 3, defSt: []int{0, 1}, spacings: []int{0}, argSt: ints(nArgStyles), bodies: ints(nBodies), sites: allSitesAndWrap, pads: []int{0, 1, 2}, cols: allCols},
+			{name: "collide-held", names: f, maxN: 2, defSt: []int{0}, spacings: []int{0}, argSt: []int{asStr, asPar}, bodies: []int{bPrint, bSibling, bSelfSibling}, sites: allSitesAndWrap, pads: []int{0}, minArgc: 1, uses: heldUses, cols: allCols},
+			{name: "collide-seq", names: f, maxN: 2, defSt: []int{0}, spacings: []int{0}, argSt: []int{asStr, asPar}, bodies: []int{bPrint, bSibling, bSelfSibling}, sites: allSitesAndWrap, pads: []int{0}, hist: hSeq, cols: allCols},
 			// all ways of reaching the macro on one engine, rendered one after the other
 			{name: "seq", names: f, maxN: 3, defSt: []int{0, 1}, spacings: []int{0}, argSt: ints(nArgStyles), bodies: ints(nBodies), sites: ints(nSites), pads: []int{0, 1, 2}, hist: hSeq},
 			{name: "seq-builtin-name", names: []string{"max"}, maxN: 2, defSt: []int{0}, spacings: []int{0}, argSt: []int{asInt}, bodies: ints(nBodies), sites: ints(nSites), pads: []int{0}, minArgc: 1, hist: hSeq},
@@ -909,6 +972,16 @@ func families(thorough bool) []family {
 		// padding of either template on every site
 		{name: "pad", names: f, maxN: 2, defSt: []int{1, 3}, spacings: []int{0, 1}, argSt: []int{asStr, asExpr}, bodies: []int{bSet, bSibling, bSelfSibling}, sites: ints(nSites), pads: []int{1, 2}},
 		{name: "builtin-name", names: []string{"max"}, maxN: 2, defSt: []int{0}, spacings: []int{0}, argSt: []int{asInt}, bodies: []int{bPrint, bSelfSibling}, sites: ints(nSites), pads: []int{0}, minArgc: 1},
+		// wide signatures (collide.go): 8, 9, 10 and 12 parameters, patterns of defaults, arguments for all
+		// parameters but the last two / for all / one more; the body prints every parameter; every site, every
+		// way of reaching the macro; either template on either side of the tokenizer switch
+		{name: "wide", names: f, ns: []int{8, 9, 10, 12}, masks: widePatterns, argcs: wideArgcs, defSt: []int{0}, spacings: []int{0}, argSt: []int{asStr, asPar}, bodies: []int{bPrint}, sites: allSitesAndWrap, pads: []int{0, 1, 2}},
+		// … with the value of the call held
+		{name: "wide-held", names: f, ns: []int{8, 9, 10, 12}, masks: widePatterns, argcs: wideArgcs, defSt: []int{0}, spacings: []int{0}, argSt: []int{asStr}, bodies: []int{bPrint}, sites: allSitesAndWrap, pads: []int{0}, minArgc: 1, uses: heldUses},
+		// a name of the importing side (own macro before / after the import, alias of another macro of the
+		// library or of another library) collides with a sibling that the imported macro calls (collide.go);
+		// plus site wrap without collision
+		{name: "collide", names: f, maxN: 3, defSt: []int{0}, spacings: []int{0}, argSt: []int{asStr, asPar}, bodies: []int{bPrint, bSibling, bSelfSibling}, sites: allSitesAndWrap, pads: []int{0}, cols: allCols},
 		// all ways of reaching the macro on one engine, rendered one after the other: the core product,
 		// with the library on either side of the tokenizer switch
 		{name: "seq", names: f, maxN: 3, defSt: []int{0}, spacings: []int{0}, argSt: []int{asStr, asPar}, bodies: ints(nBodies), sites: ints(nSites), pads: []int{0, 1}, hist: hSeq},
@@ -930,9 +1003,24 @@ func (f *family) each(emit func(kase)) {
 	if uses == nil {
 		uses = []int{uPrint}
 	}
-	for n := 0; n <= f.maxN; n++ {
-		for mask := 0; mask < 1<<n; mask++ {
-			for argc := f.minArgc; argc <= n+1; argc++ {
+	ns := f.ns
+	if ns == nil {
+		ns = ints(f.maxN + 1)
+	}
+	for _, n := range ns {
+		masks := ints(1 << n)
+		if f.masks != nil {
+			masks = f.masks(n)
+		}
+		argcs := ints(n + 2)
+		if f.argcs != nil {
+			argcs = f.argcs(n)
+		}
+		for _, mask := range masks {
+			for _, argc := range argcs {
+				if argc < f.minArgc {
+					continue
+				}
 				for _, nm := range f.names {
 					for _, ds := range f.defSt {
 						if mask == 0 && ds != f.defSt[0] {
@@ -947,7 +1035,23 @@ func (f *family) each(emit func(kase)) {
 									for _, s := range f.sites {
 										for _, p := range f.pads {
 											for _, u := range uses {
-												emit(kase{Name: nm, N: n, DefMask: mask, DefSt: ds, Spacing: sp, Argc: argc, ArgSt: as, Body: b, Site: s, Pad: p, Hist: f.hist, Use: u})
+												base := kase{Name: nm, N: n, DefMask: mask, DefSt: ds, Spacing: sp, Argc: argc, ArgSt: as, Body: b, Site: s, Pad: p, Hist: f.hist, Use: u}
+												if f.cols == nil {
+													emit(base)
+													continue
+												}
+												if s == sWrap {
+													emit(base) // the new site also without a collision
+												}
+												for _, col := range f.cols {
+													for names := 1; names < len(colNamesName); names++ {
+														k := base
+														k.Col, k.ColNames = col, names
+														if k.colExercised() {
+															emit(k)
+														}
+													}
+												}
 											}
 										}
 									}
@@ -997,10 +1101,10 @@ func main() {
 	vlib.Main(vlib.Spec{
 		ID:    "C12",
 		Level: "exploration",
-		Rule:  "every macro signature with 0–3 parameters × every subset with defaults × 5 kinds of constant default × 4 declaration spacings × argument lists of 0…n+1 arguments × 6 kinds of argument × 6 bodies (print, set inside, call a sibling, call a sibling through _self, if/for over parameters, include a name relative to the defining template) × 11 call sites (top, for, if, block, block of an extending template, included template, inside another macro, through a macro w next to f calling f / _self.f, import statement inside a for body, importing template included from a for body) × padding of the defining or the calling template above 4096 bytes, as a union of full products (families, see NOTES.md). One case takes the same macro and call once per way of reaching it (direct, _self, import, from, from-as, multi-name from) and compares every render with the binding model. Histories on one engine: history 'each' renders every way's calling template three times in a row on its own engine; history 'seq' (own families) puts the calling templates of all ways on ONE engine next to one library and renders them one after the other, in every rotation of their order and in reverse, two passes each. Use of the call's VALUE (families 'held', 'held-seq', calls with at least one argument): besides being printed once, the value is held and used several times — {% set r = CALL %}{{ r }}|{{ r }}; {% set r = CALL %}{% for i in [1, 2] %}{{ r }}{% endfor %}; passed to a macro tw that prints its parameter twice, tw reached through {% import 'olib' as o %} (o.tw(CALL)) or defined in the calling template (tw(CALL), _self.tw(CALL)); two calls of the macro with different arguments held before either is printed ({% set r = CALL %}{% set q = CALL2 %}{{ r }}{{ q }}{{ r }}) — for every way of reaching the macro, on every site; model: a held value is the text the call renders, every time it is used. Version dimension (families 'replace…', 'partial…'; keys 'repl:<how>:<change>|…', 'part:<wayA>><wayB>:<change>|…'): the macro has a second version — other body text / the complementary subset of defaults of another kind / one parameter more / one fewer / all three at once. replace: the calling templates of the ways import, from, from-as, multi-name from stand on one engine next to the library; all are rendered, the library is replaced by the other version, all are rendered, it is replaced back, all are rendered (starting from either version, callers in order and in reverse order); replaced by RegisterString again / by changing the source in a loader with caching disabled / by changing source and modification time in a timestamp-aware loader with auto-reload on / the same with the calling templates registered as strings; every render must equal the model of the version current at that render. partial: includers pageA and pageB supply version 1 and version 2 of the macro (defined in the includer, or reached there by from / from-as / multi-name from / import from its own library; every pair of ways for which the call reads the same), call it and then include the shared partial row, which makes the same call; pageA, pageB, pageA, pageB and pageB, pageA, pageB, pageA on one engine each: both calls must render the version of the page being rendered. Non-trivial: the signature or the call has at least one parameter/argument, i.e. a binding decision is made (version families: and the two versions render differently)",
+		Rule:  "every macro signature with 0–3 parameters × every subset with defaults × 5 kinds of constant default × 4 declaration spacings × argument lists of 0…n+1 arguments × 6 kinds of argument × 6 bodies (print, set inside, call a sibling, call a sibling through _self, if/for over parameters, include a name relative to the defining template) × 11 call sites (top, for, if, block, block of an extending template, included template, inside another macro, through a macro w next to f calling f / _self.f, import statement inside a for body, importing template included from a for body) × padding of the defining or the calling template above 4096 bytes, as a union of full products (families, see NOTES.md). One case takes the same macro and call once per way of reaching it (direct, _self, import, from, from-as, multi-name from) and compares every render with the binding model. Histories on one engine: history 'each' renders every way's calling template three times in a row on its own engine; history 'seq' (own families) puts the calling templates of all ways on ONE engine next to one library and renders them one after the other, in every rotation of their order and in reverse, two passes each. Use of the call's VALUE (families 'held', 'held-seq', calls with at least one argument): besides being printed once, the value is held and used several times — {% set r = CALL %}{{ r }}|{{ r }}; {% set r = CALL %}{% for i in [1, 2] %}{{ r }}{% endfor %}; passed to a macro tw that prints its parameter twice, tw reached through {% import 'olib' as o %} (o.tw(CALL)) or defined in the calling template (tw(CALL), _self.tw(CALL)); two calls of the macro with different arguments held before either is printed ({% set r = CALL %}{% set q = CALL2 %}{{ r }}{{ q }}{{ r }}) — for every way of reaching the macro, on every site; model: a held value is the text the call renders, every time it is used. Version dimension (families 'replace…', 'partial…'; keys 'repl:<how>:<change>|…', 'part:<wayA>><wayB>:<change>|…'): the macro has a second version — other body text / the complementary subset of defaults of another kind / one parameter more / one fewer / all three at once. replace: the calling templates of the ways import, from, from-as, multi-name from stand on one engine next to the library; all are rendered, the library is replaced by the other version, all are rendered, it is replaced back, all are rendered (starting from either version, callers in order and in reverse order); replaced by RegisterString again / by changing the source in a loader with caching disabled / by changing source and modification time in a timestamp-aware loader with auto-reload on / the same with the calling templates registered as strings; every render must equal the model of the version current at that render. partial: includers pageA and pageB supply version 1 and version 2 of the macro (defined in the includer, or reached there by from / from-as / multi-name from / import from its own library; every pair of ways for which the call reads the same), call it and then include the shared partial row, which makes the same call; pageA, pageB, pageA, pageB and pageB, pageA, pageB, pageA on one engine each: both calls must render the version of the page being rendered. Wide signatures (families 'wide…'): 8, 9, 10 and 12 parameters (thorough: 4 … 12) with patterns of defaults (none, all, every other one in both phases, the last, the last two, all but the first, all from the ninth on; thorough: also every single default / every single parameter without one), arguments for all parameters but the last two, for all, and one more than there are parameters (thorough: 0 … n+2), bodies that print every parameter, on every site, through every way of reaching the macro, printed and held. Collision dimension (families 'collide…', keys 'col:<kind>:<names>|…', ways import/from/from-as/multi-name from): the importing template binds a name that the reached library macro calls (the sibling g called by bodies sib/selfsib; for sites libw/libwself also f, which w calls, or both) to something else — a macro of its own defined before or after the import, or another macro imported under that name as an alias (from the same library or from another one, in its own from-statement before or after the import, or inside the from-statement that imports the macro, before or after it) — and calls that name itself after the call; the library macro must render what it renders when called directly in its defining template (the model), the importing template's own call its own macro. Site wrap (these families): the import stands at top level of the calling template, the call inside a macro v of that template. Non-trivial: the signature or the call has at least one parameter/argument, i.e. a binding decision is made (version families: and the two versions render differently; collision cases: and the reached macro calls a colliding name)",
 		Assumptions: []string{
 			"defaults and arguments are constant expressions or caller-scope variables; bodies read only their parameters; the result of a macro call is printed, assigned with set and printed, or passed as an argument to a macro that prints it (never part of a larger expression, never filtered); calls stand after the definitions/imports they use",
-			"macros are defined at top level of a template that does not extend another one; more than three parameters, named arguments and other body shapes are outside the bound",
+			"macros are defined at top level of a template that does not extend another one; 0–3 parameters with every subset of defaults and 4–12 parameters with patterns of defaults; named arguments and other body shapes are outside the bound; a colliding name is never bound twice on the importing side (own macro and import of the same name)",
 		},
 		QuickDeadline: 150, ThoroughDeadline: 840,
 		Run: run,
@@ -1032,8 +1136,24 @@ func main() {
 					}
 					extra = fmt.Sprintf("; sites top/loop/if/block only, bodies without relinc: two includers supply two versions of the macro (second version differs in %v) to one shared partial, %d pairs of ways of supplying (define, from, alias, multi, import), includers rendered alternately in both orders", ch, len(supplyPairs()))
 				}
-				fs = append(fs, fmt.Sprintf("%s: macro names %v, 0-%d parameters x every default subset, %d default kinds, %d spacings, %d argument kinds, %d bodies, %d sites, %d padding variants, uses of the call's value %v, %d ways of reaching per case, history %s",
-					f.name, f.names, f.maxN, len(f.defSt), len(f.spacings), len(f.argSt), len(f.bodies), len(f.sites), len(f.pads), uses, nReaches, histName[f.hist])+extra)
+				sig := fmt.Sprintf("0-%d parameters x every default subset", f.maxN)
+				if f.ns != nil {
+					var pats, acs []string
+					for _, n := range f.ns {
+						pats = append(pats, fmt.Sprint(len(f.masks(n))))
+						acs = append(acs, fmt.Sprint(f.argcs(n)))
+					}
+					sig = fmt.Sprintf("%v parameters x %s patterns of defaults (none, all, every other one in both phases, last, last two, all but the first, from the ninth on; thorough: also every single default and every single parameter without one), numbers of arguments %s", f.ns, strings.Join(pats, "/"), strings.Join(acs, "/"))
+				}
+				if f.cols != nil {
+					var cs []string
+					for _, c := range f.cols {
+						cs = append(cs, colName[c])
+					}
+					extra += fmt.Sprintf("; ways import/from/alias/multi only: the importing template binds a name that the reached library macro calls (g for bodies sib/selfsib; f, g or both for sites libw/libwself) to something else — %v — and calls that name itself after the call; plus site wrap without collision (all six ways but direct/_self)", cs)
+				}
+				fs = append(fs, fmt.Sprintf("%s: macro names %v, %s, %d default kinds, %d spacings, %d argument kinds, %d bodies, %d sites, %d padding variants, uses of the call's value %v, %d ways of reaching per case, history %s",
+					f.name, f.names, sig, len(f.defSt), len(f.spacings), len(f.argSt), len(f.bodies), len(f.sites), len(f.pads), uses, nReaches, histName[f.hist])+extra)
 			}
 			cov["families"] = fs
 			cov["histories"] = fmt.Sprintf("each: one engine per way of reaching the macro, its calling template rendered %d times in a row; seq: the calling templates of all ways on one engine, rendered one after the other in every rotation of the order %v and in reverse order, %d passes each", repeats, reachName, rounds)
